@@ -73,6 +73,9 @@ func cmdVerify(args []string) {
 		if *prop != "" && !hasProp(fc.Props, *prop) {
 			continue
 		}
+		if len(want) == 0 && prog.findFunc(k) == nil {
+			continue // package not loaded in this developer run
+		}
 		units = append(units, prog.GenFunc(k, GenOpts{}))
 	}
 	for _, a := range prog.cs.Axioms {
@@ -84,6 +87,9 @@ func cmdVerify(args []string) {
 			continue
 		}
 		if *prop != "" && !hasProp(a.Props, *prop) {
+			continue
+		}
+		if len(want) == 0 && prog.typesPkgByName(a.Pkg) == nil {
 			continue
 		}
 		units = append(units, prog.GenLemma(a))
